@@ -53,14 +53,14 @@ def run_five_until(sim, maxcycles, stop_after_retired=None):
     return retired, err, err_repr, exc, n
 
 
-def compare_modes(progmap, regs, words, steps, pc0=0, caches=None):
+def compare_modes(progmap, regs, words, steps, pc0=0, caches=None, hazard=True):
     """Returns (single RunResult, list of (field, detail))."""
     s1 = build(rv.SINGLE, progmap, regs, words, pc0, caches=caches)
     one = rv.run(s1, steps)
     bad = []
     if one.exc is not None:
         return one, [("single-exception", one.exc)]
-    s5 = build(rv.FIVE, progmap, regs, words, pc0, caches=caches)
+    s5 = build(rv.FIVE, progmap, regs, words, pc0, hazard=hazard, caches=caches)
     budget = 8 * max(one.steps, 1) + 16
     finished = one.done or one.err is not None
     retired, err, err_repr, exc, n = run_five_until(s5, budget, None if finished else len(one.retired))
